@@ -18,6 +18,38 @@ EXPECTED_USES = [
     "rdbReplay:FilterSlot",
 ]
 
+# the two keyspec tables as reviewed (name:first,last,step / name:extractor); an edited, added or removed
+# row fails the tie until the expectation is updated on purpose
+EXPECTED_POSITION_ROWS = [
+    "append:1,1,1", "bf.add:1,1,1", "bf.insert:1,1,1", "bf.madd:1,1,1", "bitfield:1,1,1", "bitop:2,-1,1", "blmove:1,2,1", "blpop:1,-2,1",
+    "brpop:1,-2,1", "brpoplpush:1,2,1", "bzpopmax:1,-2,1", "bzpopmin:1,-2,1", "cf.add:1,1,1", "cf.addnx:1,1,1", "cf.insert:1,1,1",
+    "cf.insertnx:1,1,1", "cms.incrby:1,1,1", "cms.initbydim:1,1,1", "cms.initbyprob:1,1,1", "copy:1,2,1", "decr:1,1,1", "decrby:1,1,1", "del:1,0,1",
+    "delex:1,1,1", "expire:1,1,1", "expireat:1,1,1", "ft.create:1,1,1", "ft.dropindex:1,1,1", "ft.search:1,1,1", "geoadd:1,1,1",
+    "geosearchstore:1,2,1", "getdel:1,1,1", "getex:1,1,1", "getset:1,1,1", "hdel:1,1,1", "hexpire:1,1,1", "hexpireat:1,1,1", "hgetdel:1,1,1",
+    "hgetex:1,1,1", "hincrby:1,1,1", "hincrbyfloat:1,1,1", "hmset:1,1,1", "hpersist:1,1,1", "hpexpire:1,1,1", "hpexpireat:1,1,1", "hset:1,1,1",
+    "hsetex:1,1,1", "hsetnx:1,1,1", "incr:1,1,1", "incrby:1,1,1", "incrbyfloat:1,1,1", "json.arrappend:1,1,1", "json.arrinsert:1,1,1",
+    "json.arrpop:1,1,1", "json.arrtrim:1,1,1", "json.clear:1,1,1", "json.del:1,1,1", "json.forget:1,1,1", "json.merge:1,1,1", "json.mset:1,-1,3",
+    "json.numincrby:1,1,1", "json.nummultby:1,1,1", "json.set:1,1,1", "json.strappend:1,1,1", "json.toggle:1,1,1", "linsert:1,1,1", "lmove:1,2,1",
+    "lpop:1,1,1", "lpush:1,1,1", "lpushx:1,1,1", "lrem:1,1,1", "lset:1,1,1", "ltrim:1,1,1", "move:1,1,1", "mset:1,-1,2", "msetnx:1,-1,2",
+    "persist:1,1,1", "pexpire:1,1,1", "pexpireat:1,1,1", "pfadd:1,1,1", "pfmerge:1,-1,1", "psetex:1,1,1", "rename:1,2,1", "renamenx:1,2,1",
+    "restore-asking:1,1,1", "restore:1,1,1", "rpop:1,1,1", "rpoplpush:1,2,1", "rpush:1,1,1", "rpushx:1,1,1", "sadd:1,1,1", "sdiffstore:1,-1,1",
+    "set:1,1,1", "setbit:1,1,1", "setex:1,1,1", "setnx:1,1,1", "setrange:1,1,1", "sinterstore:1,-1,1", "smove:1,2,1", "spop:1,1,1", "srem:1,1,1",
+    "sunionstore:1,-1,1", "tdigest.add:1,1,1", "tdigest.byrevrank:1,1,1", "tdigest.byrevscore:1,1,1", "tdigest.cdf:1,1,1", "tdigest.create:1,1,1",
+    "tdigest.incrby:1,1,1", "tdigest.max:1,1,1", "tdigest.min:1,1,1", "tdigest.quantile:1,1,1", "tdigest.rank:1,1,1", "tdigest.reset:1,1,1",
+    "tdigest.revrank:1,1,1", "tdigest.trimmed_mean:1,1,1", "topk.add:1,1,1", "topk.incrby:1,1,1", "topk.list:1,1,1", "topk.reserve:1,1,1",
+    "unlink:1,-1,1", "xack:1,1,1", "xackdel:1,1,1", "xadd:1,1,1", "xautoclaim:1,1,1", "xclaim:1,1,1", "xdel:1,1,1", "xdelex:1,1,1", "xsetid:1,1,1",
+    "xtrim:1,1,1", "zadd:1,1,1", "zincrby:1,1,1", "zpopmax:1,1,1", "zpopmin:1,1,1", "zrangestore:1,2,1", "zrem:1,1,1", "zremrangebylex:1,1,1",
+    "zremrangebyrank:1,1,1", "zremrangebyscore:1,1,1",
+]
+
+EXPECTED_EXTRACTOR_ROWS = [
+    "blmpop:.numkeysStep 1 2 1 []", "bzmpop:.numkeysStep 1 2 1 []", "cms.merge:.fixedKeys [0]", "eval:.numkeysStep 1 2 1 []",
+    "evalsha:.numkeysStep 1 2 1 []", "fcall:.numkeysStep 1 2 1 []", "fcall_ro:.numkeysStep 1 2 1 []", "georadius:.geoRadiusStore",
+    "georadiusbymember:.geoRadiusStore", "lmpop:.numkeysStep 0 1 1 []", "msetex:.numkeysStep 0 1 2 []", "sort:.sort", "tdigest.merge:.fixedKeys [0]",
+    "xgroup:.xgroup", "xreadgroup:.streams", "zdiffstore:.numkeysStep 1 2 1 [0]", "zinterstore:.numkeysStep 1 2 1 [0]", "zmpop:.numkeysStep 0 1 1 []",
+    "zunionstore:.numkeysStep 1 2 1 [0]",
+]
+
 PROP = {
     "lean_modules": ["GunYu.Props.C10"],
     "audit_namespaces": ["GunYu.Props.C10"],
@@ -36,6 +68,13 @@ PROP = {
         "output_filter_uses": EXPECTED_USES,
         "keyspec_numkeysExtractor_body": "{ return numkeysStepExtractor(numkeysIdx, firstKeyIdx, 1, fixedKeys...) }",
         "keyspec_partial_projection": ["mset", "del", "unlink"],
+        "keyspec_position_rows": EXPECTED_POSITION_ROWS,
+        "keyspec_extractor_rows": EXPECTED_EXTRACTOR_ROWS,
+        "keyspec_positions": 138,
+        "keyspec_extractors": 19,
+        "noroute_cmds": 35,
+        "noroute_cmds_list": ["CLUSTER", "ASKING", "READONLY", "READWRITE", "AUTH", "CLIENT", "QUIT", "RESET", "ECHO", "COMMAND", "FLUSHALL", "FLUSHDB", "LATENCY", "MODULE", "PSYNC", "REPLCONF", "SAVE", "SHUTDOWN", "SLAVEOF", "SLOWLOG", "SWAPDB", "SYNC", "BGSAVE", "BGREWRITEAOF", "OPINFO", "LASTSAVE", "MONITOR", "ROLE", "DEBUG", "RESTORE-ASKING", "MIGRATE", "ASKING", "WAIT", "PFSELFTEST", "PFDEBUG"],
+        "reserved_prefixes": ["redis-gunyu-checkpoint", "/redis-gunyu"],
     },
     "harness": [
         {"name": "C10", "pkg": "./pkg/filter/", "test": "TestVerifC10"},
